@@ -202,6 +202,19 @@ def check_binop(mod, R, cname, name, fn):
                         % (name, u(ret)), where(mod, fn))
             continue
         wrap = classify_wrapper(ret)
+        if wrap is None and isinstance(ret.func, ast.Attribute) and u(ret.func.value) == 'self' and ret.func.attr.startswith('__') and ret.func.attr.endswith('__'):
+            # delegation to another operator method with a transformed operand
+            arg = ret.args[0]
+            other = ret.func.attr
+            if u(arg) == y:
+                R.violation(inst, key + ':' + u(ret), '%s delegates to %s with the same operand: a different operator' % (name, other), where(mod, fn))
+            elif any(isinstance(x, ast.Name) and x.id == y for x in ast.walk(arg)):
+                R.violation(inst, key + ':' + u(ret), '%s computes %s first, i.e. reduces the intermediate value modulo 2^n in the class of %s, and only then combines it in the wider class: '
+                            'for operands of different widths the result is not (self.arg %s %s.arg) mod 2^n of the wider type'
+                            % (name, u(arg), y, OPNAME.get(pyop, opname), y), where(mod, fn), witness='uint16(0) - uint8(1) == uint16(0xff)')
+            else:
+                raise AnalysisError('%s returns through an unmodelled wrapper: %s' % (key, u(ret)))
+            continue
         if wrap is None:
             raise AnalysisError('%s returns through an unmodelled wrapper: %s' % (key, u(ret)))
         e = ret.args[0]
@@ -428,6 +441,7 @@ def run(ctx, report):
 
 
 MUTANTS = [
+    ('sub-via-add-neg', 'miasmx/tools/modint.py', "    def __sub__(self, y):\n", "    def __sub__(self, y):\n        return self.__add__(-y)\n", 'C14.op'),
     ('rsub-order', 'miasmx/tools/modint.py', 'return self.__class__(y - self.arg)', 'return self.__class__(self.arg - y)', 'C14.op'),
     ('ctor-no-mod', 'miasmx/tools/modint.py', 'self.arg = int(arg)%self.__class__.limit', 'self.arg = int(arg)', 'C14.ctor'),
     ('signed-gt', 'miasmx/tools/modint.py', 'if a >= self.__class__.limit/2:', 'if a > self.__class__.limit/2:', 'C14.ctor'),
